@@ -8,6 +8,8 @@
 -/
 import RotoV.Model.Scope
 import RotoV.Lemmas.Scope
+import RotoV.Lemmas.ScopePath
+import RotoV.Lemmas.ScopeFrame
 
 namespace RotoV.C13
 open RotoV.Scope
@@ -36,5 +38,150 @@ theorem lookup_nonrecursive (g : Graph) (s : Nat) (x : Name) :
   cases g.decl ⟨s, x⟩ <;> simp
 
 example : ∃ g : Graph, WF g ∧ 0 < g.scopes.length := ⟨Graph.new, new_wf, by decide⟩
+
+/-! ## T2 — path_spec -/
+
+/-- **T2 (segments).** For a path that does not start with `super`,
+    `resolve_module_part_of_path` is: the first segment by the declarative lookup
+    of T1; every later segment among the *direct members* (declarations) of the
+    scope owned by the item before it — `walkMembers` consults neither imports
+    nor enclosing scopes; a `super` after the first segment and a name the rules
+    do not reach are errors. -/
+theorem path_spec (g : Graph) (wf : WF g) (s : Nat) (chain : List Nat) (hc : Ancestors g s chain)
+    (id : Name) (rest : List Name) (hid : id ≠ SUPER) :
+    resolveModulePart g s (id :: rest) = pathSpec g chain id rest := by
+  simp only [resolveModulePart]
+  unfold supers
+  simp only [hid, ↓reduceIte]
+  exact segments_true_eq wf hc id rest
+
+/-- A name the rules do not reach is an error — first segment … -/
+theorem unreachable_first_is_error (g : Graph) (wf : WF g) (s : Nat) (chain : List Nat)
+    (hc : Ancestors g s chain) (id : Name) (rest : List Name) (hid : id ≠ SUPER)
+    (h : firstHit g id chain = .ok none) :
+    resolveModulePart g s (id :: rest) = .err .notDefined := by
+  rw [path_spec g wf s chain hc id rest hid]
+  simp [pathSpec, hid, h]
+
+/-- … and later segments: a name that is not declared directly in the scope of
+    the item before it is an error, whatever is imported there or visible outside. -/
+theorem unreachable_member_is_error (g : Graph) (d : Decl) (id i : Name) (rest : List Name)
+    (s' : Nat) (hs : d.scope = some s') (hi : i ≠ SUPER) (h : g.decl ⟨s', i⟩ = none) :
+    walkMembers g d id (i :: rest) = .err .notDefined := by
+  unfold walkMembers
+  simp [hs, hi, h]
+
+/-- **T2 (super).** `n + 1` leading `super`s, written in any scope whose
+    innermost enclosing module scope is `m`, continue the resolution in the
+    `(n+1)`-th module above `m` — or are the error "too many leading `super`"
+    when the module tree is not that deep. -/
+theorem super_spec (g : Graph) (wf : WF g) (mok : ModulesOk g) (n : Nat) (s : Nat)
+    (chain : List Nat) (m : Nat) (name : RName) (pm : Option Nat) (x : Name) (rest : List Name)
+    (hc : Ancestors g s chain) (he : enclosingModule g chain = some (m, name, pm)) (hx : x ≠ SUPER) :
+    resolveModulePart g s (SUPER :: (List.replicate n SUPER ++ x :: rest)) =
+      match nthUp g (n + 1) m with
+      | none => .err .tooManySuper
+      | some p => segments g p x rest true := by
+  simp only [resolveModulePart]
+  exact super_n wf mok n s chain m name pm x rest hc he hx
+
+example : pathSpec Graph.new [0] 5 [] = .err .notDefined := by decide
+
+/-! ## T3 — no_interference -/
+
+/-- **T3.** Declaring a new item `n` does not change what a name `x` means in
+    scope `s` unless `n` is named `x` *and* sits in a scope on the lookup path of
+    `s`: same-named items in other modules or scopes never interfere. -/
+theorem no_interference (g g' : Graph) (wf : WF g) (iok : ImportsOk g) (s : Nat) (chain : List Nat)
+    (hc : Ancestors g s chain) (x : Name) (n : RName) (k : DKind) (sc : Option Nat)
+    (h : g.insertDecl n k sc = .ok g') (off : n.ident ≠ x ∨ n.scope ∉ chain) :
+    g'.resolve s x true = g.resolve s x true := by
+  have hsc := (insertDecl_ok h).2.1
+  have wf' := wf_congr hsc wf
+  have hc' := ancestors_congr hsc hc
+  rw [show g'.resolve s x true = firstHit g' x chain from
+        resolveName_eq_firstHit wf' x (s + 1) s chain (Nat.lt_succ_self s) hc',
+      show g.resolve s x true = firstHit g x chain from
+        resolveName_eq_firstHit wf x (s + 1) s chain (Nat.lt_succ_self s) hc]
+  exact firstHit_insert iok h x chain off
+
+/-- Shadowing: when the name already resolves within the inner part `pre` of the
+    chain, a same-named item declared further out (in `post`) changes nothing. -/
+theorem no_interference_outer (g g' : Graph) (wf : WF g) (iok : ImportsOk g) (s : Nat)
+    (pre post : List Nat) (hc : Ancestors g s (pre ++ post)) (x : Name) (d : Decl)
+    (hit : firstHit g x pre = .ok (some d))
+    (n : RName) (k : DKind) (sc : Option Nat)
+    (h : g.insertDecl n k sc = .ok g') (off : n.scope ∉ pre) :
+    g'.resolve s x true = .ok (some d) := by
+  have hsc := (insertDecl_ok h).2.1
+  have wf' := wf_congr hsc wf
+  have hc' := ancestors_congr hsc hc
+  rw [show g'.resolve s x true = firstHit g' x (pre ++ post) from
+        resolveName_eq_firstHit wf' x (s + 1) s _ (Nat.lt_succ_self s) hc']
+  apply firstHit_prefix
+  rw [firstHit_insert iok h x pre (Or.inr off)]
+  exact hit
+
+/-- **T3 for whole paths.** A new item does not change what a path means unless
+    it is declared in a scope on the lookup path of the first segment or in one
+    of the scopes the later segments are looked up in (`memberScopes`). -/
+theorem no_interference_path (g g' : Graph) (wf : WF g) (iok : ImportsOk g) (s : Nat)
+    (chain : List Nat) (hc : Ancestors g s chain) (id : Name) (rest : List Name) (hid : id ≠ SUPER)
+    (n : RName) (k : DKind) (sc : Option Nat) (h : g.insertDecl n k sc = .ok g')
+    (off₁ : n.scope ∉ chain)
+    (off₂ : ∀ d, firstHit g id chain = .ok (some d) → n.scope ∉ memberScopes g d rest) :
+    resolveModulePart g' s (id :: rest) = resolveModulePart g s (id :: rest) := by
+  have hsc := (insertDecl_ok h).2.1
+  rw [path_spec g' (wf_congr hsc wf) s chain (ancestors_congr hsc hc) id rest hid,
+      path_spec g wf s chain hc id rest hid]
+  unfold pathSpec
+  simp only [hid, ↓reduceIte, firstHit_insert iok h id chain (Or.inr off₁)]
+  cases hf : firstHit g id chain with
+  | panic p => rfl
+  | err e => rfl
+  | ok o =>
+    cases o with
+    | none => rfl
+    | some d => exact walkMembers_insert h rest d id (off₂ d hf)
+
+/-! ## T4 — import order -/
+
+/-- the witness tree: `pkg { aa { fn ff #101 }  bb { aa { fn ff #102 } } }`
+    (identifiers: aa = 3, bb = 4, ff = 6) -/
+def witnessMods : List Module :=
+  [ ⟨PKG, none, []⟩,
+    ⟨3, some 0, [.fn 6 101 (.mk [] [])]⟩,
+    ⟨4, some 0, []⟩,
+    ⟨3, some 2, [.fn 6 102 (.mk [] [])]⟩ ]
+
+/-- the graph after `declare_modules`, plus the scope (5) of a function of `pkg` -/
+def witnessGraph : Graph :=
+  match declareModules witnessMods [] Graph.new with
+  | .ok (g, _) => (g.wrap 1 (.function 10)).1
+  | _ => Graph.new
+
+def kindOf : Res (Option Decl) → Option DKind
+  | .ok (some d) => some d.kind
+  | _ => none
+
+/-
+  T4 as designed — `import_order_indep`: for every scope and every permutation
+  of its import list the final import table is the same — is FALSE on this
+  tree (and in the model): refuted below.  Known finding
+  `C13-import-order-sibling-alias`; replayed on the real compiler by the fixed
+  trees 0 and 1 of the harness.
+-/
+
+/-- **T4 refuted.** In a block of a function of `pkg`, `import bb.aa; import
+    aa.ff;` makes `ff` the function #102 of `pkg.bb.aa`; the same two imports in
+    the other order make `ff` the function #101 of `pkg.aa` — both orders compile.
+    (`aa` is reachable through the sibling import *and* as an outer declaration.) -/
+theorem import_order_dep :
+    WF witnessGraph ∧
+    ∃ g₁ g₂, imports witnessGraph 5 [[4, 3], [3, 6]] = .ok g₁ ∧
+             imports witnessGraph 5 [[3, 6], [4, 3]] = .ok g₂ ∧
+             kindOf (g₁.resolve 5 6 true) = some (.fn 102) ∧
+             kindOf (g₂.resolve 5 6 true) = some (.fn 101) := by
+  refine ⟨WF_of_WFb (by decide), _, _, rfl, rfl, ?_, ?_⟩ <;> decide
 
 end RotoV.C13
